@@ -47,22 +47,28 @@ func lenOverlap(a, b []byte) bool {
 
 const guardByte = 0xC9
 
-// guard returns a copy of b placed inside a larger array - 8 sentinel bytes before it and 8
-// behind it, the copy's spare capacity reaching into the latter - and a function that reports
-// whether every sentinel byte is still in place. A nil slice stays nil.
+// guard returns a copy of b placed inside a larger array - 8 sentinel bytes before it and
+// len(b)+8 behind it (room for a second copy), the copy's spare capacity reaching into the
+// latter - and a function that reports whether every sentinel byte is still in place. A nil
+// slice stays nil.
 func guard(b []byte) ([]byte, func() bool) {
 	if b == nil {
 		return nil, func() bool { return true }
 	}
-	whole := make([]byte, len(b)+16)
+	n := len(b)
+	whole := make([]byte, 2*n+16)
 	for i := range whole {
 		whole[i] = guardByte
 	}
 	copy(whole[8:], b)
-	n := len(b)
 	return whole[8 : 8+n], func() bool {
 		for i := 0; i < 8; i++ {
-			if whole[i] != guardByte || whole[8+n+i] != guardByte {
+			if whole[i] != guardByte {
+				return false
+			}
+		}
+		for i := 8 + n; i < len(whole); i++ {
+			if whole[i] != guardByte {
 				return false
 			}
 		}
